@@ -54,6 +54,6 @@ def jobs(tier):
         J.append(Job("init.rr.n%d.p%d" % (n, p_), "h_vpmap.c", entry="h_rr", defines={"NBC": "(2)", "HWC": 4, "RRN": n, "RRP": p_}, unwind=10,
                      bounded=b, functions=FUNCS, min_obligations=2))
     # relative index -> logical core of the allowed mask (parsec.c), complete over all 64-bit masks and all idx >= 0
-    J.append(Job("find_core_by_idx", "h_core.c", entry="h_find_core", unwind=(34 if tier == "thorough" else 18), defines={"NBITS": (32 if tier == "thorough" else 16)}, functions=["parsec_find_core_by_idx"],
-                 min_obligations=3, timeout=900, bounded="allowed masks over the first 16 (quick) / 32 (thorough) cores, every mask and every index"))
+    J.append(Job("find_core_by_idx", "h_core.c", entry="h_find_core", unwind=(22 if tier == "thorough" else 18), defines={"NBITS": (20 if tier == "thorough" else 16)}, functions=["parsec_find_core_by_idx"],
+                 min_obligations=3, timeout=2400, bounded="allowed masks over the first 16 (quick) / 32 (thorough) cores, every mask and every index"))
     return J
